@@ -2,8 +2,8 @@ package main
 
 import (
 	"fmt"
-	"strconv"
 	"go/token"
+	"strconv"
 	"strings"
 
 	"golang.org/x/tools/go/ssa"
@@ -54,7 +54,7 @@ type Effect struct {
 	Fresh  bool  // store into memory allocated by this function (local variable cell or new object)
 	InLoop bool
 	Block  *ssa.BasicBlock
-	Seq    int // position in the interleaved sequence of effects and conditions of the path
+	Seq    int         // position in the interleaved sequence of effects and conditions of the path
 	Via    []*ssa.Call // calls through which the executor entered inlined callees (outermost first); nil at top level
 }
 
@@ -195,14 +195,14 @@ type execOpts struct {
 }
 
 type executor struct {
-	prog   *Program
-	fn     *ssa.Function
-	dom    *Domain
-	opts   execOpts
-	paths  []*Path
-	inLoop map[*ssa.BasicBlock]bool
-	over   bool
-	escapd map[*ssa.Alloc]bool
+	prog    *Program
+	fn      *ssa.Function
+	dom     *Domain
+	opts    execOpts
+	paths   []*Path
+	inLoop  map[*ssa.BasicBlock]bool
+	over    bool
+	escapd  map[*ssa.Alloc]bool
 	scanned map[*ssa.Function]bool
 	// abandoned: path prefixes dropped because a block would have been visited more than MaxVisits times
 	abandoned int
@@ -221,9 +221,9 @@ type pstate struct {
 	epoch   int
 	seq     int
 	locals  map[*ssa.Alloc]*Term
-	stored  map[string]int // address key -> number of stores so far on the path
-	elems   map[elemKey]*Term // elements of local array literals (copy-on-write, shared between forks)
-	frames  []actFrame                  // activations of inlined callees (innermost last); entries are immutable
+	stored  map[string]int           // address key -> number of stores so far on the path
+	elems   map[elemKey]*Term        // elements of local array literals (copy-on-write, shared between forks)
+	frames  []actFrame               // activations of inlined callees (innermost last); entries are immutable
 	subst   map[*ssa.Parameter]*Term // parameters of the inlined activations (copy-on-write)
 	tc      *TermCtx
 }
